@@ -166,6 +166,49 @@ def mapping_kind_probes(ctx: Ctx):
                     return
 
 
+def generic_member_probes(ctx: Ctx):
+    """strict origins through generic models: members that mention the class's type variables in another order than declared
+    (dict[V, K], tuple[V, K, V]), only some of them, nested, inherited - the strict loader of Index[str, int] accepts exactly the
+    data whose positions have the substituted types, and rejects the data with the types swapped"""
+    import dataclasses
+    from typing import Generic, TypeVar
+
+    from adaptix import DebugTrail, Retort
+    K, V, W = TypeVar("K"), TypeVar("V"), TypeVar("W")
+
+    @dataclasses.dataclass
+    class Index(Generic[K, V]):
+        forward: dict[K, V]
+        backward: dict[V, K]
+        last: tuple[V, K]
+        only_v: list[V]
+        nested: dict[V, list[tuple[K, V]]]
+
+    @dataclasses.dataclass
+    class Child(Index[W, int], Generic[W]):
+        extra: tuple[int, W]
+    good = {"forward": {"a": 1}, "backward": {1: "a"}, "last": [1, "a"], "only_v": [1], "nested": {1: [["a", 1]]}}
+    swapped_variants = [dict(good, backward={"a": 1}), dict(good, last=["a", 1]), dict(good, only_v=["a"]), dict(good, nested={"a": [[1, "a"]]}),
+                        dict(good, nested={1: [[1, "a"]]}), dict(good, forward={1: "a"})]
+    for m in morph.MODES:
+        r = Retort(strict_coercion=True, debug_trail=getattr(DebugTrail, m))
+        for hint, extra_good, extra_bad in ((Index[str, int], {}, None), (Child[str], {"extra": [1, "a"]}, {"extra": ["a", 1]})):
+            ld = r.get_loader(hint)
+            case = {"probe": "generic-members", "hint": repr(hint), "mode": m}
+            ctx.note_case(case, nontrivial=True, kind="generic-members")
+            out = morph.run_real(ld, dict(good, **extra_good))
+            if out["r"] != "ok":
+                ctx.fail("generic-members:well-typed-rejected", f"strict retort [{m}] rejects well-typed data for {hint!r}: {str(out)[:160]}", case)
+                return
+            bads = [dict(v, **extra_good) for v in swapped_variants] + ([dict(good, **extra_bad)] if extra_bad else [])
+            for bad in bads:
+                out = morph.run_real(ld, bad)
+                if out["r"] == "ok":
+                    ctx.fail("strict-origin:generic-member", f"strict retort [{m}] accepts {bad!r:.160} for {hint!r}: a str where the "
+                             f"substituted type is int (or the reverse)", dict(case, datum=repr(bad)[:200]))
+                    return
+
+
 def derived_retort_probes(ctx: Ctx):
     """strict and lax retorts DERIVED from one another (replace / extend, with and without other options in the same call), used
     in either order: the strict one still rejects everything outside the allowed strict origins, whatever its lax sibling has
@@ -262,6 +305,7 @@ def run(ctx: Ctx):
     literal_matrix(ctx, eng)
     derived_retort_probes(ctx)
     mapping_kind_probes(ctx)
+    generic_member_probes(ctx)
     specs = eng.gen_specs(ctx.budget(140, 2000), 3 if ctx.tier == "quick" else 4)
     recs = eng.load_records(specs, suite="load", n_valid=2, n_corrupt=3, n_hostile=2)
     for rec in recs:
@@ -282,6 +326,7 @@ def search(ctx: Ctx):
     literal_matrix(ctx, eng)
     derived_retort_probes(ctx)
     mapping_kind_probes(ctx)
+    generic_member_probes(ctx)
     if not ctx.failures:
         for rec in eng.load_records(eng.gen_specs(1500, 4), n_valid=2, n_corrupt=4, n_hostile=3):
             oracle_pair(ctx, eng, rec)
@@ -294,4 +339,5 @@ def replay(ctx: Ctx, case) -> bool:
     literal_matrix(ctx, eng)
     derived_retort_probes(ctx)
     mapping_kind_probes(ctx)
+    generic_member_probes(ctx)
     return len(ctx.failures) > before
